@@ -126,6 +126,8 @@ type Case struct {
 	Writers []Writer `json:"writers,omitempty"`
 	Leaves  []Leaf   `json:"leaves,omitempty"`
 	Seed    uint64   `json:"seed,omitempty"` // yields of the conc goroutines
+	Barrier bool     `json:"barrier,omitempty"` // conc: the leaves call Close at the same instant (bounded spin barrier)
+	Reps    int      `json:"reps,omitempty"`    // conc: drive the same tree this many times (storm case)
 }
 
 // O is one observation (Model/Stream.v's obs).
